@@ -174,6 +174,49 @@ pub fn run(ctx: &Ctx) -> i32 {
         }
     });
     col.layer("limit x files", done, complete, json!({"statements": nst, "line_sequences": nseq, "max_len": maxlen, "max_files": 3}));
+    // follow mode (the real FollowFileExecutor in child processes): LIMIT n delivers the first n rows and then ends by itself
+    {
+        let mut nf = 0u64;
+        let lines = ["a", "b", "c"];
+        for n in 0..=4usize {
+            for (stmt_t, sel) in [("SELECT input FROM t LIMIT {}", 0usize), ("SELECT input FROM t WHERE x != 'b' LIMIT {}", 1), ("SELECT DISTINCT input FROM t LIMIT {}", 2)] {
+                for chunking in 0..3 {
+                    let content = "a\nb\nc\na\n";
+                    let chunks: Vec<Vec<u8>> = match chunking {
+                        0 => vec![content.as_bytes().to_vec()],
+                        1 => content.split_inclusive('\n').map(|l| l.as_bytes().to_vec()).collect(),
+                        _ => content.as_bytes().iter().map(|b| vec![*b]).collect(),
+                    };
+                    let stmt = stmt_t.replace("{}", &n.to_string());
+                    let (delivered, end, ok) = crate::checks::c10::follow_child(true, b"", &chunks, &stmt, -1);
+                    let all: Vec<&str> = match sel {
+                        0 => vec!["a", "b", "c", "a"],
+                        1 => vec!["a", "c", "a"],
+                        _ => vec!["a", "b", "c"],
+                    };
+                    let expected: Vec<String> = all.iter().take(n).map(|l| format!("{{\"input\":\"{}\"}}", l)).collect();
+                    nf += 1;
+                    col.eval(1);
+                    col.states.fetch_add(1, std::sync::atomic::Ordering::Relaxed);
+                    col.traces_validated.fetch_add(1, std::sync::atomic::Ordering::Relaxed);
+                    if n > 0 && n < all.len() {
+                        col.nontrivial(h64(&("follow", n, sel, chunking)));
+                    }
+                    if delivered != expected || end != "ok" || !ok {
+                        col.fail(fail(
+                            format!("limit:follow:{}{}", if delivered.len() > expected.len() { "extra-rows" } else if delivered.len() < expected.len() { "missing-rows" } else if end != "ok" { "ended-with-error" } else { "wrong-rows" }, if n == 0 { ":n=0" } else { "" }),
+                            format!("follow mode `{}` over {:?} (chunking {}): delivered {:?}, expected {:?}, end={}", stmt, lines, chunking, delivered, expected, end),
+                            json!({"layer": "follow", "statement": stmt, "chunking": chunking, "n": n}),
+                            json!(expected),
+                            json!({"delivered": delivered, "end": end}),
+                            n as u64,
+                        ));
+                    }
+                }
+            }
+        }
+        col.layer("follow-mode LIMIT (FollowFileExecutor in child processes)", nf, true, json!({"n": "0..=4", "statements": 3, "chunkings": 3}));
+    }
     let _ = &w.joined_path;
     finish(
         ctx,
